@@ -67,7 +67,7 @@ class CallMixin:
         return super().lookup_name(name, st)
 
     SPEC_BUILTINS = ("implies", "iff", "ite", "dom", "is_none", "some", "has_class", "lang_re", "in_re", "select", "to_real", "str_at",
-                     "floor", "py_str_float", "joined", "is_perm", "abs_real", "same_except", "list_eq", "is_append", "is_empty_list", "unboxed", "ext_const", "bn", "select_eq", "card_int", "is_int", "card_val", "seq_eq", "dict_eq_on", "fresh_obj", "alloc", "is_alloc", "heap_eq", "str_len", "str_from_int")
+                     "floor", "py_str_float", "joined", "is_perm", "abs_real", "same_except", "list_eq", "is_append", "is_empty_list", "unboxed", "ext_const", "bn", "select_eq", "card_int", "is_int", "card_val", "seq_eq", "dict_eq_on", "fresh_obj", "alloc", "is_alloc", "heap_eq", "str_len", "str_from_int", "py_split")
 
     def builtin(self, st, name, args, kwargs, node):
         a = args
